@@ -37,7 +37,7 @@ AtomsAny == {PM(">", VInt(0)), PM("==", VInt(1)), PMTruthy, PM("<=", VInt(1)),
 \* in Auto mode a nested Match switches its sub-spec to match mode (with / without a default)
 AtomsAutoOnly == {PMatch(PType("int"), FALSE, NoDef), PMatch(PType("str"), TRUE, VInt(9))}
 \* under Match(..) also types, literals (and predicates decide by truthiness)
-AtomsMatchOnly == {PType("int"), PType("str"), PLit(VInt(1)), PLit(A), Truthy}
+AtomsMatchOnly == {PType("int"), PType("str"), PLit(VInt(1)), PLit(A), Truthy, PPred("recip", 0)}
 Atoms(mode) == IF mode = "match" THEN AtomsAny \cup AtomsMatchOnly ELSE AtomsAny \cup AtomsAutoOnly
 \* the small alphabets used below depth 1: passing / failing / failing with a non-Match
 \* GlomError / logging / raising a foreign error
@@ -117,27 +117,52 @@ Ctors == {PWrap(kd, k) : kd \in {"optional", "required"}, k \in WrapKeys} \cup
          {[op |-> "ctor", name |-> n] : n \in DOMAIN CtorTable}
 CtorPredict(p) == [ctor |-> IF p.op = "wrap" THEN Constructs(p) ELSE CtorTable[p.name]]
 
-VARIABLES mode, spec, target, pred, phase
-vars == <<mode, spec, target, pred, phase>>
+\* specs evaluated twice: ONE spec object on a first and then a second target (specs carry no
+\* memory: the second outcome is that of a fresh object).  Or / Switch over three children with
+\* distinct results, and -- under Match(..) -- over predicates that log their calls
+ReAtoms == {PM(">", VInt(0)), PM("==", VStr("a")), PMTruthy}
+Tagged(c) == [i \in 1..3 |-> PAnd(<<c[i], PVal(VInt(i))>>, "ctor", FALSE, NoDef)]
+RePreds == {PPred("isnum", 0), Truthy, PPred("falsy", 0)}
+Reused(m) ==
+  UNION {{POr(Tagged(c), "ctor", FALSE, NoDef), POr(Tagged(c), "ctor", TRUE, D),
+          PSwitch([i \in 1..3 |-> <<c[i], PVal(VInt(i))>>], TRUE, D)} : c \in [1..3 -> ReAtoms]} \cup
+  (IF m = "match" THEN {POr(c, "ctor", FALSE, NoDef) : c \in [1..3 -> RePreds]} ELSE {})
+
+VARIABLES mode, spec, target, pred, phase, target2, pred2
+vars == <<mode, spec, target, pred, phase, target2, pred2>>
 
 Init == mode = "auto" /\ spec = PMTruthy /\ target = VNone /\ pred = Dumped(Ev("auto", VNone, PMTruthy)) /\ phase = 0
+        /\ target2 = VNone /\ pred2 = Dumped(Ev("auto", VNone, PMTruthy))
 ChooseSpec ==
   /\ phase = 0 /\ phase' = 1
   /\ \/ \E m \in {"auto", "match"} : mode' = m /\ \E p \in Trees(m) : spec' = Label(p, 1)
      \/ mode' = "auto" /\ spec' \in Checks
      \/ mode' = "ctor" /\ spec' \in Ctors
-  /\ UNCHANGED <<target, pred>>
+     \/ \E m \in {"auto", "match"} : mode' = m /\ \E p \in Reused(m) : spec' = Label(p, 1)
+  /\ UNCHANGED <<target, pred, target2, pred2>>
 \* under Match(..) the tree is the pattern of a Match wrapper
 Root == IF mode = "match" THEN PMatch(spec, FALSE, VNone) ELSE spec
 ChooseTarget ==
   /\ phase = 1 /\ phase' = 2
   /\ IF mode = "ctor" THEN target' = VNone /\ pred' = CtorPredict(spec)
      ELSE target' \in Targets /\ pred' = Dumped(Ev("auto", target', Root))
-  /\ UNCHANGED <<mode, spec>>
-Next == ChooseSpec \/ ChooseTarget
+  /\ UNCHANGED <<mode, spec, target2, pred2>>
+\* the same spec object once more, on a second target
+\* (the shape of the Reused family, tested structurally: cheaper than membership)
+IsReused ==
+  \/ /\ spec.op = "or" /\ Len(spec.c) = 3
+     /\ \/ \A i \in 1..3 : spec.c[i].op = "and" /\ Len(spec.c[i].c) = 2 /\ spec.c[i].c[2].op = "val"
+        \/ \A i \in 1..3 : spec.c[i].op = "pred"
+  \/ spec.op = "switch" /\ Len(spec.cases) = 3
+EvaluateAgain ==
+  /\ phase = 2 /\ mode # "ctor" /\ IsReused /\ phase' = 3
+  /\ target2' \in Targets
+  /\ pred2' = Dumped(EvAgain("auto", target, target2', Root))
+  /\ UNCHANGED <<mode, spec, target, pred>>
+Next == ChooseSpec \/ ChooseTarget \/ EvaluateAgain
 
 \* ---- laws ---------------------------------------------------------------------------------
-Case == phase = 2 /\ mode # "ctor"
+Case == phase >= 2 /\ mode # "ctor"
 O == Undumped(pred)
 Kid(i) == Ev(mode, target, spec.c[i])
 Fragment == mode = "ctor" \/ (InFragment("auto", Root) /\ StrsOK(target))
@@ -146,6 +171,8 @@ Fragment == mode = "ctor" \/ (InFragment("auto", Root) /\ StrsOK(target))
 CtorLaw == phase = 2 /\ mode = "ctor" /\ spec.op = "wrap" /\ spec.key.op # "wrap" =>
              LET other == PWrap(IF spec.kind = "optional" THEN "required" ELSE "optional", spec.key) IN
              (pred.ctor = "ok") # (Constructs(other) = "ok")
+\* specs carry no memory: evaluated again, a spec object decides like a fresh one
+HistoryFree == phase = 3 => Undumped(pred2) = Ev("auto", target2, Root)
 \* a comparison Python itself refuses is not a rejection: its TypeError comes out unchanged
 Unorderable == Case /\ spec.op = "m" /\ (IF spec.refl THEN PyCmp(spec.cmp, spec.rhs, target) ELSE PyCmp(spec.cmp, target, spec.rhs)) = "E"
                  => O.errs = {"TypeError"}
